@@ -103,6 +103,9 @@ def extra(chk, sd, binp):
     removal_paths(chk, sd, binp)
     import dist_common
     dist_common.run(chk, sd, chk.tier, ["metconc"], {"C13"})
+    # the composed request path (limiter ; breaker ; selection ; proxy ; counting): spec/System.tla
+    import system_common
+    system_common.run(chk, sd, binp, {"C13"})
 
 
 def run(tier):
